@@ -870,7 +870,8 @@ class Representation:
         else:
             product_rep = Representation()
             for gen in self.asym_gens():
-                tens = np.tensordot(self[gen], rep[gen], axes=0)
+                tens = np.tensordot(self.generators[gen],
+                                    rep.generators[gen], axes=0)
                 elt = np.concatenate(np.concatenate(tens, axis=1), axis=1)
                 product_rep[gen] = np.array(elt)
             return product_rep
@@ -890,7 +891,7 @@ class Representation:
         proj = symmetric_projection(self._dim)
         square_rep = Representation()
         for g in self.asym_gens():
-            square_rep[g] = proj @ tensor_rep[g] @ incl
+            square_rep[g] = proj @ tensor_rep.generators[g] @ incl
 
         return square_rep
 
